@@ -44,8 +44,22 @@ above that carry extra informational keys (read only by labels_of):
                   SPD base is first rewritten as a 'named' triclinic case.  The anisotropy ratio differs from 1 by O(d).
   'whole': True   every named constant is a whole number (so that a caller can pass Python/numpy integers)
   pure helpers: scaled_case(case, s), near_isotropic(case, d), whole_case(case), scale_of(case)
+
+Later additions (a fourth kind and two more variants; the strategies above do not produce them, so the checks that share
+this file see no change):
+  {'kind': 'perm',  'base': <tensor case>, 'perm': k}     the base tensor with its axes relabelled by the k-th of the 24
+        proper signed permutation matrices SIGNED_PERMS (rows = new axes): an EXACT re-arrangement of the entries
+        (mirror images are covered too: a fourth-rank tensor does not change under inversion)
+  'almost': 'cpl' | 'equal' | 'iso'   near-threshold variants (almost_case): the coupling constants of a tetragonal /
+        rhombohedral / monoclinic / triclinic set replaced by +/-10**u C11, -12 <= u <= -3 (almost the higher symmetry);
+        an orthorhombic set with C22, C23, C55 within 10**u (relative) of C11, C13, C44 (almost tetragonal); a cubic /
+        hexagonal set within 10**u of isotropy (near_isotropic with d = 10**u)
+  'fit': <dtype>, 'whole': True       whole-number constants rescaled so that the largest equals a given integer (the
+        limit of a narrow integer dtype): fitted_whole(case, hi, nonneg)
+  strategies: almost_tensors(), perm_tensors(), near_sym_rots(), perm_rots() -> ['P', k]
 """
 import functools
+import itertools
 import math
 
 import numpy as np
@@ -160,6 +174,10 @@ def cij(case):
     if kind == 'rot':
         C = el.rotate_voigt(cij(case['base']), el.rotation_matrix(*case['rot']))
         return (C + C.T) / 2
+    if kind == 'perm':
+        # exact: every entry of the result is +/- one entry of the base (all other terms of the sums are exact zeros)
+        C = el.rotate_voigt(cij(case['base']), np.array(SIGNED_PERMS[case['perm'] % 24], dtype=float))
+        return (C + C.T) / 2
     raise ValueError(kind)
 
 
@@ -223,6 +241,13 @@ def labels_of(case):
     elif case['kind'] == 'rot':
         b = case['base']
         labs.add('rot_of_' + (b['system'] if b['kind'] == 'named' else b['kind']))
+    elif case['kind'] == 'perm':
+        b = case['base']
+        labs.add('perm_of_' + (b['system'] if b['kind'] == 'named' else b['kind']))
+    if 'almost' in case:
+        labs.update({'almost', 'almost_' + case['almost']})
+    if 'fit' in case:
+        labs.add('fit_' + case['fit'])
     if 'scale' in case:
         sc = case['scale']
         labs.add('scale_small' if sc < 1e-3 else 'scale_large' if sc > 1e3 else 'scale_mid')
@@ -273,7 +298,7 @@ def near_isotropic(case, d):
     same setting (every placement table is linear in the constants), hence admissible; exactly isotropic cases are
     returned unchanged"""
     kind = case['kind']
-    if kind == 'rot':
+    if kind in ('rot', 'perm'):
         out = dict(case)
         out['base'] = near_isotropic(case['base'], d)
         if 'near_iso' in out['base']:
@@ -516,3 +541,146 @@ def strains(scale=0.05):
     e = st.one_of(gens.nice(-scale, scale, 5), gens.nice(-scale, scale, 5), st.just(0.0))
     return st.lists(e, min_size=6, max_size=6).map(
         lambda v: [[v[0], v[5], v[4]], [v[5], v[1], v[3]], [v[4], v[3], v[2]]])
+
+
+# ====================================================================== later additions (see the module docstring)
+
+def _proper_signed_perms():
+    out = []
+    for p in itertools.permutations(range(3)):
+        for sg in itertools.product((1, -1), repeat=3):
+            M = [[0, 0, 0], [0, 0, 0], [0, 0, 0]]
+            for i in range(3):
+                M[i][p[i]] = sg[i]
+            if round(float(np.linalg.det(np.array(M, dtype=float)))) == 1:
+                out.append(M)
+    return tuple(out)
+
+
+SIGNED_PERMS = _proper_signed_perms()          # 24 integer matrices, [0] is the identity
+assert len(SIGNED_PERMS) == 24 and SIGNED_PERMS[0] == [[1, 0, 0], [0, 1, 0], [0, 0, 1]]
+
+
+def perm_case(case, k):
+    return {'kind': 'perm', 'base': case, 'perm': int(k) % 24}
+
+
+def _admissible_as_is(system, k, ratio=MIN_EIG_RATIO / 2):
+    w = np.linalg.eigvalsh(place(system, k))
+    return bool(w[0] >= ratio * w[-1])
+
+
+def almost_case(case, seed):
+    """near-threshold variant of a case (pure function of case and seed); the case itself when none applies or the varied
+    set is not admissible"""
+    kind = case['kind']
+    if kind in ('rot', 'perm'):
+        out = dict(case)
+        out['base'] = almost_case(case['base'], seed)
+        if 'almost' in out['base']:
+            out['almost'] = out['base']['almost']
+        return out
+    if kind == 'spd':
+        case = _as_triclinic(case)
+    s = case['system']
+    rng = np.random.default_rng(seed)
+
+    def delta():
+        sign = -1.0 if int(rng.integers(0, 2)) else 1.0
+        return sign * 10.0 ** (int(rng.integers(-1200, -299)) / 100.0)
+    k = dict(case['C'])
+    if s in ('tetragonal', 'rhombohedral', 'monoclinic', 'triclinic'):
+        # zero couplings leave a block-diagonal matrix of principal sub-matrices (positive definite, not worse conditioned)
+        for n in NAMES[s]:
+            if _kind_of(n) == 'cpl':
+                k[n] = delta() * k['C11']
+        tag = 'cpl'
+    elif s == 'orthorhombic':
+        k['C22'], k['C23'], k['C55'] = k['C11'] * (1 + delta()), k['C13'] * (1 + delta()), k['C44'] * (1 + delta())
+        tag = 'equal'
+    elif s in ('cubic', 'hexagonal'):
+        out = near_isotropic(case, abs(delta()))
+        out['almost'] = 'iso'
+        return out
+    else:
+        return case
+    if not _admissible_as_is(s, k):
+        return case
+    out = {n: v for n, v in case.items() if n != 'iso_mix'}
+    out['C'] = k
+    out['almost'] = tag
+    return out
+
+
+def fitted_whole(case, hi, nonneg=False):
+    """whole-number constants proportional to the case's with the largest magnitude equal to hi (the limit of an integer
+    dtype), such that the whole Voigt matrix is whole (C11 - C12 even where C66 = (C11 - C12)/2) and, for nonneg, has no
+    negative entry; None when the rounded set is not admissible.  spd / rot / perm kinds become a triclinic set."""
+    if case['kind'] != 'named':
+        case = _as_triclinic(case)
+    s = case['system']
+    if s == 'isotropic':
+        return None
+    big = max(abs(v) for v in case['C'].values())
+    k = {n: float(round(v * (hi / big))) for n, v in case['C'].items()}
+    if s in ('hexagonal', 'rhombohedral') and (k['C11'] - k['C12']) % 2:
+        k['C12'] += 1.0 if k['C12'] < 0 else -1.0
+    C = place(s, k)
+    if float(np.abs(C).max()) > hi or (nonneg and float(C.min()) < 0) or not _admissible_as_is(s, k):
+        return None
+    return {'kind': 'named', 'system': s, 'C': k, 'whole': True}
+
+
+_almost_seed = st.integers(0, 2 ** 32 - 1)
+_perm_idx = st.integers(0, 23)
+
+
+@functools.lru_cache(maxsize=None)
+def almost_tensors():
+    """crystal-system / generic tensors (standard setting 2/3, rotated 1/3) in their near-threshold variant, at magnitude 1
+    in half and else scaled like every variant"""
+    plain = tensors(rotated=True, isotropic_too=False)
+
+    @st.composite
+    def _a(draw):
+        seed = draw(_almost_seed)
+        T = almost_case(draw(plain), seed)
+        rng = np.random.default_rng(seed + 1)
+        return T if int(rng.integers(0, 2)) else scaled_case(T, _draw_scale(rng))
+    return _a()
+
+
+@functools.lru_cache(maxsize=None)
+def perm_tensors():
+    """a crystal-system tensor (or, 1/6, a generic one) with exactly relabelled axes, plain or in a variant"""
+    @st.composite
+    def _p(draw):
+        base = draw(spd()) if draw(_which) <= 1 else draw(_named_system(draw(_anysys)))
+        T = perm_case(base, draw(_perm_idx))
+        return _variant(draw, T) if draw(gens._bool) else T
+    return _p()
+
+
+_SYM_SPOTS = (((0, 0, 1), 90.0), ((1, 0, 0), 90.0), ((0, 1, 0), 90.0), ((0, 0, 1), 180.0), ((1, 0, 0), 180.0), ((0, 1, 0), 180.0),
+              ((1, 1, 1), 120.0), ((0, 0, 1), 120.0), ((0, 0, 1), 60.0), ((1, 1, 0), 180.0), ((0, 0, 1), 0.0), ((1, -1, 0), 180.0),
+              ((0, 0, 1), 45.0), ((-1, 1, 1), 120.0))
+_spot = st.sampled_from(_SYM_SPOTS)
+
+
+@functools.lru_cache(maxsize=None)
+def near_sym_rots():
+    """[axis, angle]: a symmetry operation of some crystal system missed by 10**u degrees, -10 <= u <= -2 (either side)"""
+    @st.composite
+    def _r(draw):
+        axis, ang = draw(_spot)
+        rng = np.random.default_rng(draw(_almost_seed))
+        d = 10.0 ** (int(rng.integers(-1000, -199)) / 100.0)
+        a = ang + d if (ang == 0.0 or int(rng.integers(0, 2))) else ang - d
+        return [list(axis), a]
+    return _r()
+
+
+@functools.lru_cache(maxsize=None)
+def perm_rots():
+    """['P', k]: the k-th proper signed permutation matrix, exactly"""
+    return _perm_idx.map(lambda k: ['P', k])
